@@ -267,16 +267,49 @@ def rule_typestate(m):
                 if not lk:
                     continue
                 res.sites += 1
-                pos = f.cfg_pos(n['i'])
-                ok = False
                 from .rules_wl import implied
-                for (bb, ix) in f.dominating_edges(pos[0]) if pos else []:
+                alldefs = {d[0] for d in defs}
+                target = f.cfg_pos(n['i'])
+
+                def guarded_edge(bb, ix):
                     atom = f.branch_atom(bb)
-                    for (at, pol) in implied(tt.t(atom), ix == 0) if atom is not None else []:
+                    if atom is None:
+                        return False
+                    for (at, pol) in implied(tt.t(atom), ix == 0):
                         if at[0] == 'bin' and at[1] in ('!=', '==') and t in (at[2], at[3]):
                             other = at[3] if at[2] == t else at[2]
                             if other[0] == 'mcall' and other[1].endswith(('::end', '::cend')) and ((at[1] == '!=') == pol):
-                                ok = True
+                                return True
+                    return False
+                # walk forward from every lookup definition: the dereference must not be reachable before a `!= end()`
+                # edge or a redefinition of the iterator (insert/emplace results are always dereferenceable)
+                ok = target is not None
+                for (dn, _) in lk:
+                    start = f.cfg_pos(dn)
+                    if start is None or not ok:
+                        continue
+                    seen = set()
+                    work = [(start[0], start[1] + 1)]
+                    while work and ok:
+                        b, ix = work.pop()
+                        if (b, ix) in seen:
+                            continue
+                        seen.add((b, ix))
+                        blk = f.blocks[b]
+                        stop = False
+                        for e in blk.elems[ix:]:
+                            if (b, blk.elems.index(e)) == target:
+                                ok = False
+                                stop = True
+                                break
+                            if e in alldefs:
+                                stop = True
+                                break
+                        if stop:
+                            continue
+                        for si, sx in enumerate(blk.succs):
+                            if sx is not None and sx >= 0 and not guarded_edge(b, si):
+                                work.append((sx, 0))
                 if ok:
                     res.ok(dict(function=disp, iterator=u.decl(t[1])['name'], at=f.nloc(n['i']), guard='!= end()')
                            if len(res.samples) < 30 else None, fn=disp)
